@@ -137,7 +137,7 @@ def gen_class(name, g, dtname, k=0):
 # ---------------------------------------------------------------------------------------
 
 
-def affine_judge(x, q, bits, axis, group_size, dtname, idempotence=True):
+def affine_judge(x, q, bits, axis, group_size, dtname, idempotence=True, dq=None):
     """C02/C03/C06 oracle for quantize_weight(x, qint2|qint4, axis, group_size). Returns [(sub, count, msg, extra)]."""
     from optimum.quanto import QBitsTensor
     from optimum.quanto.tensor.qbits.packed import PackedTensor
@@ -166,7 +166,7 @@ def affine_judge(x, q, bits, axis, group_size, dtname, idempotence=True):
         if q._data.numel() != x.numel() or inner.dtype != torch.uint8 or inner.shape[0] != -(-first * bits // 8):
             out.append(("payload", 1, f"payload {tuple(q._data.shape)} inner {tuple(inner.shape)} {inner.dtype} for {x.numel()} elements", {}))
     try:
-        dq = q.dequantize()
+        dq = q.dequantize() if dq is None else dq  # a result obtained (and held) earlier by the caller is judged as it is now
     except Exception as e:  # noqa
         out.append(("dequantize_raised", 1, f"dequantize raised {type(e).__name__}: {e}", {}))
         return out
